@@ -33,6 +33,7 @@ from sqlglot.optimizer import optimizer as _opt  # noqa: E402
 from sqlglot.optimizer.qualify import qualify  # noqa: E402
 from sqlglot.optimizer.annotate_types import annotate_types  # noqa: E402
 from sqlglot.lineage import lineage  # noqa: E402
+from sqlglot.optimizer.scope import build_scope  # noqa: E402
 from sqlglot.schema import ensure_schema  # noqa: E402
 
 logging.getLogger("sqlglot").setLevel(logging.CRITICAL)
@@ -262,6 +263,20 @@ def _fn_catalogue(tree, other, read):
                 lambda nm=nm: lineage(nm, tree, sources={"t": src}, dialect=dialect),
             )
         cat["lineage-all"] = ({"tree": tree}, lambda: lineage(None, tree, dialect=dialect))
+        for nm in names[:1]:
+            # the column given as a node (spelled in upper case: lineage normalises the name it looks for)
+            coln = exp.column(nm.upper())
+            cat[f"lineage-colnode:{nm}"] = ({"tree": tree, "column": coln}, lambda coln=coln: lineage(coln, tree, dialect=dialect))
+
+            # a caller-built scope of an already qualified tree
+            def with_scope(nm=nm):
+                return lineage(nm, tree, scope=build_scope(tree), dialect=dialect)
+
+            cat[f"lineage-scope:{nm}"] = ({"tree": tree}, with_scope)
+    # db / catalog given as identifier nodes
+    dbn, catn = exp.to_identifier("MyDb"), exp.to_identifier("MyCat")
+    cat["optimize-dbnodes"] = ({"tree": tree, "db": dbn, "catalog": catn}, lambda: optimize(tree, db=dbn, catalog=catn, dialect=dialect))
+    cat["qualify-copy-dbnodes"] = ({"tree": tree, "db": dbn, "catalog": catn}, on_copy(lambda c: qualify(c, db=dbn, catalog=catn, dialect=dialect)))
     return cat
 
 
@@ -383,6 +398,8 @@ class D:
         self.delete = parse_one("DELETE FROM t")
         self.update = parse_one("UPDATE t SET a = 1")
         self.union = parse_one("SELECT 1 AS a UNION SELECT 2 AS a")
+        self.crossq = parse_one("SELECT * FROM a CROSS JOIN b")
+        self.cross = self.crossq.args["joins"][0]
 
     def trees(self):
         return {
@@ -395,6 +412,7 @@ class D:
             "delete": self.delete,
             "update": self.update,
             "union": self.union,
+            "crossq": self.crossq,
         }
 
 
@@ -545,6 +563,13 @@ COND_BUILDERS = {
     "Join.on(node)": lambda c, d: d.join.on(d.eq),
     "Join.on(str)": lambda c, d: d.join.on("q = 1"),
     "Join.using(str)": lambda c, d: d.join.using("q"),
+    "Join.on(None)": lambda c, d: d.join.on(None),
+    "Join.on(None)/cross": lambda c, d: d.cross.on(None),
+    "Join.on(str)/cross": lambda c, d: d.cross.on("q = 1"),
+    "Select.where(None)": lambda c, d: d.tree.where(None),
+    "Select.having(None)": lambda c, d: d.tree.having(None),
+    "Join.using(None)": lambda c, d: d.join.using(None),
+    "Union.select(node)": lambda c, d: d.union.select(d.col),
     "Subquery.select(str)": lambda c, d: d.subq.select("zz"),
     "Union.select(str)": lambda c, d: d.union.select("zz"),
     "Union.limit(int)": lambda c, d: d.union.limit(1),
